@@ -56,7 +56,7 @@ type Family struct {
 	Calls     func(u *Unit, i int, text string) []work.Call // default: one JSON call per document
 	Level     string
 	Rule      string
-	ExtraCfg  string // extra CONSTANTS lines for the MC cfg
+	ExtraCfg  func(tier string) string // extra CONSTANTS lines for the MC cfg
 	Assume    []string
 }
 
@@ -109,8 +109,12 @@ func devSet(devs []string) string {
 }
 
 // Enumerate runs the MC module: design-level invariants + unit emission.
-func Enumerate(f *Family, sc *work.Scratch, devs []string) ([]*Unit, *tlc.Result, error) {
-	cfg := "SPECIFICATION Spec\nCONSTANTS\n  UnitsFile = \"stdout\"\n  Devs = " + devSet(devs) + "\n" + f.ExtraCfg +
+func Enumerate(f *Family, sc *work.Scratch, devs []string, tier string) ([]*Unit, *tlc.Result, error) {
+	extra := ""
+	if f.ExtraCfg != nil {
+		extra = f.ExtraCfg(tier)
+	}
+	cfg := "SPECIFICATION Spec\nCONSTANTS\n  UnitsFile = \"stdout\"\n  Devs = " + devSet(devs) + "\n" + extra +
 		"INVARIANTS DesignOK AsIsOK Emit\nCHECK_DEADLOCK FALSE\n"
 	r, err := tlc.Run(tlc.Opts{Module: f.Module, Cfg: cfg, Dir: filepath.Join(sc.Dir, "tlc-mc"), Workers: 16,
 		Timeout: 30 * time.Minute, HeapGB: 12})
